@@ -20,6 +20,7 @@ func checkC01(c *an.Ctx) {
 	c.Rule("C01.4", "atomic status (E4): Stage.Status is written only by atomic.StoreInt32 in UpdateStatus and read in pkg/scheduler only by atomic.LoadInt32")
 	c.Rule("C01.5", "edges (E4/E5): AddStage reaches the edge recorder for every dependency with (dep, stage.Name); the recorder updates from[a]∪={b}, to[b]∪={a} unconditionally; nothing else writes from/to; To/From return the entries unmodified")
 	c.Rule("C01.6", "finished stays finished (premise of the gate and of the launch guard; same rule as C02.5): statuses are written as constants, Waiting is never written, Running only by the scheduling side on a stage seen Waiting — a dependency that was seen Done cannot be running again when its dependant starts")
+	c.Rule("C01.7", "a nested pipeline finishes when its stages have (the rules of C02.7 and C02.2, obligations of C01 because a stage that is a pipeline is Done when Schedule returns): the scheduling loop ends by the done test only when no stage is Waiting or Running, and the stage goroutine ends Done / Error with the run's error recorded exactly when the stage failed fatally")
 	c.NotDecided = append(c.NotDecided,
 		"real interleavings and the Go memory model beyond 'all status accesses are atomic'",
 		"a stage graph shared by two concurrently running schedulers",
@@ -35,6 +36,10 @@ func checkC01(c *an.Ctx) {
 	atomicStatus(c, s, "C01.4")
 	edgeWiring(c, s, "C01.5")
 	monotoneStatus(c, s, "C01.6")
+	// a nested pipeline is a stage: "finished" for it means that Schedule returned, so Schedule may return
+	// only when none of its stages is unfinished, and with the failure of a stage as its error
+	doneTest(c, s, "C01.7")
+	stageBodyTable(c, s, "C01.7")
 }
 
 // gateRow is the result of exploring the gate's loop body for one row.
